@@ -89,6 +89,22 @@ def check_fn(chk, cipher, fn, ns, inputs, tabs_idx, tabs, key, exp_key, targets,
         chk.violation(f'{cipher}.{ns}.{fn}:every guess column is the documented computation with that guess; shape (traces, guesses, words)',
                       dict(ctx, property='C07', got_shape=list(full.shape), expected_shape=list(want.shape), first_bad_guess=g, first_bad_word=w), f'{cipher}.{ns}.{fn}: output differs from the specification table')
         return
+    # custom tags, with decoy metadata fields literally named `data`, `key` and the default tag names
+    ptag, ktag = 'my_input', 'my_key'
+    kw_ = {('ciphertext_tag' if tag == 'ciphertext' else 'plaintext_tag'): ptag, 'key_tag': ktag}
+    try:
+        sf2 = cls(**kw_)
+        decoy = (arr.astype('int64') * 7 + 3).astype('uint8')
+        out2 = np.asarray(sf2(**{ptag: arr, 'data': decoy, tag: decoy, 'key': decoy[:1, :len(key)] if decoy.shape[1] >= len(key) else decoy[:1]}))
+        chk.count((gi, cipher, ns, fn, 'tags'), nontrivial=True)
+        if out2.shape != full.shape or not np.array_equal(out2, full):
+            chk.violation(f'{cipher}.{ns}.{fn}:the function reads the field designated by its tag, whatever other metadata fields are present', dict(ctx, property='C07', tag=ptag), f'{cipher}.{ns}.{fn}: output changes when metadata also carries fields named data/key')
+        if exp_key is not None:
+            ek2 = np.asarray(sf2.compute_expected_key(**{ktag: np.array(key, dtype='uint8'), 'key': np.array(key, dtype='uint8')[::-1].copy(), 'data': decoy}))
+            if ek2.tolist() != exp_key:
+                chk.violation(f'{cipher}.{ns}.{fn}:compute_expected_key reads the key designated by key_tag', dict(ctx, property='C07', got=ek2.tolist(), expected=exp_key), f'{cipher}.{ns}.{fn}: expected key taken from another metadata field')
+    except TypeError as ex:
+        chk.violation(f'{cipher}.{ns}.{fn}:custom tags are accepted', dict(ctx, property='C07', error=repr(ex)[:200]), f'{cipher}.{ns}.{fn}: {ex!r}'[:200])
     # expected key and true-key column
     if exp_key is not None:
         ek = np.asarray(sf.compute_expected_key(key=np.array(key, dtype='uint8')))
